@@ -239,4 +239,4 @@ func SortedStrings(s []string) []string {
 }
 
 // WD is the default wait option set (60 s watchdog).
-var WD = WaitOpts{Watchdog: 60 * time.Second}
+var WD = WaitOpts{Watchdog: 40 * time.Second}
